@@ -335,6 +335,10 @@ class StepWorld:
 
         def after_ms(smp, token, res, exc):
             if world.cur is not None and exc is None:
+                if isinstance(res, (tuple, list)) and res:
+                    # a refactored helper may return more than the acceptance mask: the first element is the reported decision
+                    world.counters["note.metropolis_step_returns_tuple"] += 1
+                    res = res[0]
                 world.cur.accepted = res
 
         def after_change(smp, token, res, exc):
